@@ -29,7 +29,10 @@ RULE = ('per shipped scheme a pool of generated molecules (quick ~45, '
         ' '
         'Round 18: pairs / triples of chains of 10-60 carbons (components'
         ' below, mixture above any saturation size), in processes that first'
-        ' toured the rest of the package.')
+        ' toured the rest of the package.'
+        ' '
+        'Round 20: unusual-ring components (ring alkyne / allene / radical,'
+        ' small and medium rings) before and after ordinary ring components.')
 ASSUMPTIONS = [
     'shipped schemes contain no molecule-level prefixes (scanned by C14); the '
     'statement is quantified over shipped schemes',
